@@ -63,6 +63,7 @@ def dispatch (prop : String) (line : String) : Verdict :=
     | some "holder" => HolderE.runHolder prop f obsS
     | some "mac" => MacrosE.runMac prop f obsS
     | some "macn" => MacrosE.runMac prop f obsS
+    | some "mact" => MacrosE.runMact prop f obsS
     | _ => badCase
   | _ => badCase
 
